@@ -18,6 +18,9 @@ pub enum Shape {
     /// a tag section of exactly `total` bytes (when total >= 12), built from 1..3 tags
     TotalExactly { total: u32, split: u8 },
     Explicit(Vec<Vec<String>>),
+    /// one tag holding one string of `len` bytes, followed by `n_empty` tags without strings
+    /// (the size limit is crossed by tags that carry no string at all)
+    BigThenEmpty { len: u32, n_empty: u8 },
 }
 
 #[derive(Clone, Copy, Debug, Serialize, Deserialize, PartialEq, Eq)]
@@ -83,6 +86,13 @@ pub fn build(shape: &Shape) -> Vec<Vec<String>> {
             tags
         }
         Shape::Explicit(t) => t.clone(),
+        Shape::BigThenEmpty { len, n_empty } => {
+            let mut v = vec![vec![s_of(*len as usize, 1)]];
+            for _ in 0..*n_empty {
+                v.push(Vec::new());
+            }
+            v
+        }
     }
 }
 
@@ -174,6 +184,7 @@ impl Prop for C19 {
             "tag section totals 65,519..=65,551 x 8 construction paths".into(),
             "single string lengths 65,520..=65,540 and 70,000 x 8 paths".into(),
             "tag counts {16382, 16383, 16384, 32767, 65534, 65535, 65536, 70000} empty tags x 8 paths".into(),
+            "one string of 65,470..=65,530 bytes followed by 1..20 string-less tags x 8 paths (limit crossed by tags without strings)".into(),
             "ids/authors/kinds counts {2045..2048 (64 KiB of ids), 65534, 65535, 65536, 70000} from parts and from JSON".into(),
             "output buffers needed-8..=needed+8 and 0 for a small event, tags and filter".into(),
         ]
@@ -196,6 +207,11 @@ impl Prop for C19 {
             }
             for len in (65_520u32..=65_540).chain([70_000, 131_072 + 5]) {
                 v.push(Case::Tags { shape: Shape::OneBig { len }, via, delta: 0, content_len: 0 });
+            }
+            for len in (65_470u32..=65_530).step_by(3) {
+                for n_empty in [1u8, 2, 3, 5, 9, 20] {
+                    v.push(Case::Tags { shape: Shape::BigThenEmpty { len, n_empty }, via, delta: 0, content_len: 0 });
+                }
             }
             for n in [16_382u32, 16_383, 16_384, 32_765, 32_766, 32_767, 65_534, 65_535, 65_536, 70_000] {
                 v.push(Case::Tags { shape: Shape::ManyEmptyTags { n }, via, delta: 0, content_len: 0 });
@@ -240,6 +256,7 @@ impl Prop for C19 {
             2 => prop_oneof![16_370u32..16_400, 32_750u32..32_790, 65_520u32..65_560].prop_map(|n| Shape::ManyEmptyTags { n }),
             2 => (1u32..200, 0u32..8, 0u32..400).prop_map(|(n_tags, per_tag, len)| Shape::Grid { n_tags, per_tag, len }),
             3 => (65_400u32..65_700, any::<u8>()).prop_map(|(total, split)| Shape::TotalExactly { total, split }),
+            2 => (65_400u32..65_540, 0u8..30).prop_map(|(len, n_empty)| Shape::BigThenEmpty { len, n_empty }),
             4 => prop::collection::vec(tag_strategy(4, 20), 0..6).prop_map(Shape::Explicit),
         ];
         let delta = prop_oneof![4 => Just(0i32), 4 => -8i32..=8, 1 => Just(i32::MIN), 1 => -300i32..0, 1 => Just(4096i32)];
